@@ -572,6 +572,9 @@ func (p *Program) CoqServices() string {
 func (p *Program) ServiceStats(h map[string]int) {
 	for _, s := range p.Services() {
 		h["services"]++
+		for _, sf := range streamSide[s] {
+			h["streaming_fn:"+strings.Join(sf.Values, "+")+fmt.Sprintf("/%dargs", len(sf.Fn.Args))]++
+		}
 		if s.Name == "Common" {
 			h["homonym_services"]++
 		}
@@ -626,4 +629,234 @@ func (p *Program) ServiceStats(h map[string]int) {
 			}
 		}
 	}
+}
+
+// ---------------------------------------------------------------------------------- streaming functions
+//
+// Functions annotated with streaming.mode are removed by the Go backend (no thrift_streaming
+// option) before code generation. They are kept OUT of Service.Functions — everything that drives
+// or models the generated code sees the service the templates see — and live in a side table that
+// only the IDL text (RenderS) and the source-form Coq term (CoqServicesSrc) consult.
+
+type StreamFn struct {
+	Pos    int // emitted before Functions[Pos] (Pos == len(Functions): at the end)
+	Fn     *Function
+	Values []string // values of the annotation streaming.mode (one annotation per value)
+}
+
+var streamSide = map[*Service][]*StreamFn{}
+
+func (s *Service) StreamingFunctions() []*StreamFn { return streamSide[s] }
+
+// AddStreaming puts 1-3 annotated functions into services of the main file (at least one service).
+func AddStreaming(r *rng.R, p *Program) {
+	g := &gen{r: r, p: DefaultParams(), prog: p, visible: map[string][]*File{}, structs: map[string]*Struct{},
+		enums: map[string]*Enum{}, tdefs: map[string]*Typedef{}, counter: 9000}
+	main := p.Files[0]
+	g.cur = main
+	vis := []*File{main}
+	for _, f := range p.Files[1:] {
+		if contains(main.Includes, f.Name) {
+			vis = append(vis, f)
+		}
+	}
+	g.visible[main.Name] = vis
+	g.p.StructKeys = p.HasStructKeys()
+	g.p.BaseTypedefs = p.HasBaseTypedefs()
+	for _, f := range p.Files {
+		for _, d := range f.Defs {
+			switch {
+			case d.Struct != nil:
+				g.structs[d.Struct.QName()] = d.Struct
+			case d.Enum != nil:
+				g.enums[d.Enum.QName()] = d.Enum
+			case d.Typedef != nil:
+				g.tdefs[d.Typedef.File+"."+d.Typedef.Name] = d.Typedef
+			}
+		}
+	}
+	var svcs []*Service
+	for _, d := range main.Defs {
+		if d.Service != nil {
+			svcs = append(svcs, d.Service)
+		}
+	}
+	if len(svcs) == 0 {
+		return
+	}
+	forced := r.Intn(len(svcs))
+	sp := DefaultServiceParams()
+	sp.Collide = false
+	for i, sv := range svcs {
+		if i != forced && !r.Chance(1, 2) {
+			continue
+		}
+		n := r.Range(1, 3)
+		for k := 0; k < n; k++ {
+			fn := g.genFunction(sp, g.fresh("stream"))
+			fn.Oneway, fn.Throws = false, nil
+			one := func() {
+				for len(fn.Args) > 1 {
+					fn.Args = fn.Args[:1]
+				}
+				if len(fn.Args) == 0 {
+					fn.Args = []*Field{{ID: 1, Name: "req", Req: "default", Type: &Type{Kind: "string"}}}
+				}
+			}
+			var vals []string
+			switch r.Intn(8) {
+			case 0:
+				vals = []string{"client"}
+				one()
+			case 1:
+				vals = []string{"server"}
+				one()
+			case 2:
+				vals = []string{"bidirectional"}
+				one()
+			case 3:
+				vals = []string{"unary"}
+				one()
+			case 4:
+				vals = []string{"bogus"} // unknown value: "failed to parse streaming"
+			case 5:
+				vals = []string{"server"} // recognised value, wrong number of arguments
+				if len(fn.Args) == 1 {
+					fn.Args = nil
+				}
+			case 6:
+				vals = []string{"client", "server"} // several values
+				one()
+			default:
+				vals = []string{"server"}
+				one()
+			}
+			if fn.Args == nil {
+				fn.Args = []*Field{}
+			}
+			streamSide[sv] = append(streamSide[sv], &StreamFn{Pos: r.Range(0, len(sv.Functions)), Fn: fn, Values: vals})
+		}
+	}
+}
+
+func (p *Program) functionText(f *File, fn *Function) string {
+	ret := "void"
+	if fn.Ret != nil {
+		ret = p.typeText(f, fn.Ret)
+	}
+	var b strings.Builder
+	if fn.Oneway {
+		b.WriteString("  oneway ")
+	} else {
+		b.WriteString("  ")
+	}
+	var args, throws []string
+	for _, a := range fn.Args {
+		args = append(args, p.fieldText(f, a))
+	}
+	for _, a := range fn.Throws {
+		throws = append(throws, p.fieldText(f, a))
+	}
+	fmt.Fprintf(&b, "%s %s(%s)", ret, fn.Name, strings.Join(args, ", "))
+	if len(throws) > 0 {
+		fmt.Fprintf(&b, " throws (%s)", strings.Join(throws, ", "))
+	}
+	return b.String()
+}
+
+// sourceOrder: the functions of a service as written in the IDL (nil StreamFn = ordinary function).
+type srcFn struct {
+	Fn     *Function
+	Stream *StreamFn
+}
+
+func (s *Service) sourceOrder() []srcFn {
+	var out []srcFn
+	for i := 0; i <= len(s.Functions); i++ {
+		for _, sf := range streamSide[s] {
+			if sf.Pos == i {
+				out = append(out, srcFn{sf.Fn, sf})
+			}
+		}
+		if i < len(s.Functions) {
+			out = append(out, srcFn{s.Functions[i], nil})
+		}
+	}
+	return out
+}
+
+func (p *Program) serviceText(f *File, sv *Service, withStreaming bool) string {
+	var b strings.Builder
+	fmt.Fprintf(&b, "service %s", sv.Name)
+	if sv.Extends != "" {
+		fmt.Fprintf(&b, " extends %s", p.rel(f, sv.Extends))
+	}
+	b.WriteString(" {\n")
+	for _, sf := range sv.sourceOrder() {
+		if sf.Stream != nil && !withStreaming {
+			continue
+		}
+		b.WriteString(p.functionText(f, sf.Fn))
+		if sf.Stream != nil {
+			var as []string
+			for _, v := range sf.Stream.Values {
+				as = append(as, fmt.Sprintf("streaming.mode=%q", v))
+			}
+			b.WriteString(" (" + strings.Join(as, ", ") + ")")
+		}
+		b.WriteString(",\n")
+	}
+	b.WriteString("}\n\n")
+	return b.String()
+}
+
+// RenderS is Render with the streaming functions written into their services.
+func (p *Program) RenderS() map[string]string {
+	out := p.Render()
+	for _, f := range p.Files {
+		for _, d := range f.Defs {
+			if d.Service == nil || len(streamSide[d.Service]) == 0 {
+				continue
+			}
+			name := f.Name + ".thrift"
+			plain, with := p.serviceText(f, d.Service, false), p.serviceText(f, d.Service, true)
+			if !strings.Contains(out[name], plain) {
+				panic("schemagen: RenderS does not find the text of service " + d.Service.QName())
+			}
+			out[name] = strings.Replace(out[name], plain, with, 1)
+		}
+	}
+	return out
+}
+
+// CoqServicesSrc prints the services in source form (list Wire.Rpc.service_src): every function
+// with the values of its streaming.mode annotation; Coq computes what the generator sees.
+func (p *Program) CoqServicesSrc() string {
+	var ss []string
+	for fi, f := range p.Files {
+		for _, d := range f.Defs {
+			s := d.Service
+			if s == nil {
+				continue
+			}
+			ext := "None"
+			if s.Extends != "" {
+				ext = "(Some " + coqfmt.BytesF(s.Extends) + ")"
+			}
+			var fs []string
+			for _, sf := range s.sourceOrder() {
+				an := "None"
+				if sf.Stream != nil {
+					var vs []string
+					for _, v := range sf.Stream.Values {
+						vs = append(vs, coqfmt.BytesF(v))
+					}
+					an = "(Some " + coqfmt.List(vs) + ")"
+				}
+				fs = append(fs, "(mkfsrc "+CoqFunction(sf.Fn)+" "+an+")")
+			}
+			ss = append(ss, fmt.Sprintf("(mksrc %s %s %s %s)", coqfmt.BytesF(s.QName()), ext, coqfmt.Bool(fi == 0), coqfmt.List(fs)))
+		}
+	}
+	return coqfmt.List(ss)
 }
